@@ -57,6 +57,15 @@ _log2 = {
 }
 
 
+def name2string(name: str) -> str:
+    """Text form of an import / export name (without the quotes).
+
+    A name is a UTF-8 string; it is written like a data string, so that
+    quotes, backslashes and non printable characters are escaped.
+    """
+    return bytes2datastring(name.encode("utf-8"))
+
+
 def bytes2datastring(b):
     """
     Allow most ascii characters, except for
